@@ -172,6 +172,7 @@ def r7_mut_params(f):
         raise RuleError("R7: parameter list not found")
     pc = f.br[po]
     names, edits = [], []
+    self_renamed = False
     k = po + 1
     depth = 0
     first = True
@@ -183,13 +184,23 @@ def r7_mut_params(f):
         if (first or (c[k - 1].text == "," and depth == 0)) and c[k].text == "mut" and c[k + 1].kind == "ident" and c[k + 2].text == ":":
             names.append(c[k + 1].text)
             edits.append((c[k].pos, c[k + 1].end, c[k + 1].text + "__0"))
+        if first and c[k].text == "mut" and c[k + 1].text == "self" and c[k + 2].text in (",", ")"):
+            # `mut self` (by value): Verus has no `mut self`; the receiver becomes the ordinary parameter `self__0: Self` and the body's
+            # `self` is renamed `self_` (a local cannot be called `self`)
+            self_renamed = True
+            edits.append((c[k].pos, c[k + 1].end, "self__0: Self"))
         first = False
         k += 1
-    if not names:
+    if not names and not self_renamed:
         return
     j = pc
     while c[j].text != "{":
         j += 1
+    if self_renamed:
+        for m in range(j + 1, f.br[j]):
+            if c[m].text == "self" and c[m].kind == "ident":
+                edits.append((c[m].pos, c[m].end, "self_"))
+        edits.append((c[j].end, c[j].end, " let mut self_ = self__0;"))
     edits.append((c[j].end, c[j].end, " " + " ".join("let mut %s = %s__0;" % (n, n) for n in names)))
     f.apply(edits, "R7")
 
